@@ -323,7 +323,7 @@ fn run_all(ctx: &mut Ctx) {
 pub static C08: CheckDef = CheckDef {
     id: "C08",
     level: "exploration",
-    rule: "(i) the C01 MiniCairo space (well-typed by construction; quick: every 5th program, thorough: every 3rd) and every corpus snippet whose diagnostics are error-free, under every front-end configuration (quick: 5 corner configurations; thorough: the full 44-point product of Optimizations/inlining/const-folding/match-threshold): diagnostics error-free => get_sierra_program ok, ProgramRegistry (Sierra validation) ok, calc_metadata ok, sierra-to-casm ok, no panic anywhere. (ii) ownership injection, every combination: 4 non-copy value kinds (Array, struct with array, Destruct-only struct, struct without Drop) x 4 first moves (call, let, through a tuple, in both branches) x 3 second uses (call again, let again, snapshot) x 4 positions (straight, in if, in else, in match arm), plus moves inside while/loop/for bodies; plus 16 move constructs with their controls (closure capture, match-arm binding, `for` header, member then whole, first / second operand of `&&`, let-else, the same variable as two `ref` arguments or as value and `ref`, a `continue` path, tuple and struct patterns, array literal, inner block, generic without Copy, `#[derive(Copy)]` over a non-Copy member, handwritten generic Copy / Drop impls whose members are not Copy / Drop for some instantiation (struct, enum, tuple member, parameter member) with bounded controls; a snapshot taken before the move stays usable); missing drop: 2 non-droppable kinds x 15 scenarios (never consumed, one branch only, overwritten, leaked by early return, unused parameter, shadowed, leaked on the panic path of an inline assert / of one / of two panicable calls, dropped in tuple, match arm) x 3 tails (ordinary value, always panics, never-typed call) plus an unbounded generic; each ill-formed program must get >=1 error diagnostic under the default configuration and with optimisations disabled; the legal control variants (single move, consumed on all paths, bounded generic) must compile - so rejection is caused by the injected violation. distinct_nontrivial = distinct programs.",
+    rule: "(i) the C01 MiniCairo space (well-typed by construction; quick: every 5th program, thorough: every 3rd) and every corpus snippet whose diagnostics are error-free (incl. one program per instantiation of the bounded-integer lattice: downcast between 26 ranges, constrain, trim, bounded add / sub / mul), under every front-end configuration (quick: 5 corner configurations; thorough: the full 44-point product of Optimizations/inlining/const-folding/match-threshold): diagnostics error-free => get_sierra_program ok, ProgramRegistry (Sierra validation) ok, calc_metadata ok, sierra-to-casm ok, no panic anywhere. (ii) ownership injection, every combination: 4 non-copy value kinds (Array, struct with array, Destruct-only struct, struct without Drop) x 4 first moves (call, let, through a tuple, in both branches) x 3 second uses (call again, let again, snapshot) x 4 positions (straight, in if, in else, in match arm), plus moves inside while/loop/for bodies; plus 16 move constructs with their controls (closure capture, match-arm binding, `for` header, member then whole, first / second operand of `&&`, let-else, the same variable as two `ref` arguments or as value and `ref`, a `continue` path, tuple and struct patterns, array literal, inner block, generic without Copy, `#[derive(Copy)]` over a non-Copy member, handwritten generic Copy / Drop impls whose members are not Copy / Drop for some instantiation (struct, enum, tuple member, parameter member) with bounded controls; a snapshot taken before the move stays usable); missing drop: 2 non-droppable kinds x 15 scenarios (never consumed, one branch only, overwritten, leaked by early return, unused parameter, shadowed, leaked on the panic path of an inline assert / of one / of two panicable calls, dropped in tuple, match arm) x 3 tails (ordinary value, always panics, never-typed call) plus an unbounded generic; each ill-formed program must get >=1 error diagnostic under the default configuration and with optimisations disabled; the legal control variants (single move, consumed on all paths, bounded generic) must compile - so rejection is caused by the injected violation. distinct_nontrivial = distinct programs.",
     assumptions: &["linear metadata solvers (the legacy solvers' panics are C14 findings)", "any error diagnostic counts: the property does not fix the wording"],
     run: run_all,
     stack_mb: 32,
